@@ -21,8 +21,7 @@ def _code_hash():
 
 
 def facts_hash(facts):
-    d = {k: v for k, v in facts.d.items() if k not in ("nonce", "_export_s", "_config_name")}
-    return hashlib.sha256(json.dumps(d, sort_keys=True).encode()).hexdigest()
+    return facts.hash
 
 
 def static_sites(facts):
